@@ -12,7 +12,7 @@ ENV = dict(os.environ, WT="/repo", REPO="/repo", PATH="/opt/veriftools/go1.26.8/
 REPO = "/repo"
 
 def sh(cmd, cwd=REPO, timeout=1800):
-    p = subprocess.run(cmd, shell=True, cwd=cwd, env=ENV, stdout=subprocess.PIPE, stderr=subprocess.STDOUT, text=True, timeout=timeout)
+    p = subprocess.run(cmd, shell=True, cwd=cwd, env=ENV, stdout=subprocess.PIPE, stderr=subprocess.STDOUT, text=True, errors="replace", timeout=timeout)
     return p.returncode, p.stdout
 
 def demo_target(path):
